@@ -6,7 +6,8 @@ import json, os, re, subprocess, sys, time
 BASE = json.load(open('/root/.vp/BASELINE.json'))
 BASE_FAIL = set(BASE['always_fail'])
 BASE_PASS = set(BASE['stable_pass'])
-OUT = '/tmp/seed/verify'
+OUT = os.environ.get('VERIFY_OUT', '/tmp/seed/verify')
+J = os.environ.get('VERIFY_J', '8')
 def sh(cmd, cwd, timeout=3600):
     try:
         r = subprocess.run(cmd, shell=True, cwd=cwd, stdout=subprocess.PIPE, stderr=subprocess.STDOUT, text=True, timeout=timeout)
@@ -31,7 +32,7 @@ def main():
         name = os.path.basename(sd.rstrip('/'))
         meta = json.load(open(os.path.join(sd, 'meta.json')))
         demo = meta['demo_test'].split('#')[0].strip()
-        demo = re.sub(r'-j \d+', '-j 8', demo)
+        demo = re.sub(r'-j \d+', f'-j {J}', demo)
         r = dict(seed=name, demo_cmd=demo, t0=time.time())
         clean(wt)
         rc, o = sh(f'git apply {sd}/demo.diff', wt)
@@ -39,14 +40,14 @@ def main():
         rc, o = sh(demo, wt)
         r['demo_on_pristine_rc'] = rc
         r['demo_on_pristine_tail'] = o[-600:]
-        rc2, o2 = sh(f'git apply {sd}/patch.diff && cargo build --offline -j 8 2>&1 | tail -3', wt)
+        rc2, o2 = sh(f'git apply {sd}/patch.diff && cargo build --offline -j {J} 2>&1 | tail -3', wt)
         r['patch_applies_and_builds'] = rc2 == 0 and 'error' not in o2.lower()
         rc3, o3 = sh(demo, wt)
         r['demo_with_patch_rc'] = rc3
         r['demo_with_patch_tail'] = o3[-900:]
         clean(wt)
         sh(f'git apply {sd}/patch.diff', wt)
-        rc4, o4 = sh('cargo test --workspace --offline -j 8 --no-fail-fast 2>&1', wt, timeout=5400)
+        rc4, o4 = sh(f'cargo test --workspace --offline -j {J} --no-fail-fast 2>&1', wt, timeout=5400)
         t = parse_tests(o4)
         failed = {k for k, v in t.items() if v == 'FAILED'}
         passed = {k for k, v in t.items() if v == 'ok'}
@@ -58,7 +59,7 @@ def main():
             again = []
             for f in r['suite_new_failures']:
                 crate, test = f.split('::', 1)
-                rc5, o5 = sh(f'cargo test --offline -j 8 -p {crate} --lib -- {test} --exact', wt)
+                rc5, o5 = sh(f'cargo test --offline -j {J} -p {crate} --lib -- {test} --exact', wt)
                 if rc5 != 0: again.append(f)
             r['suite_new_failures_after_rerun'] = again
         clean(wt)
